@@ -18,6 +18,7 @@ RULE = (
     "supplied: exactly nb_points points, or one per scored sample for None; tpr/tnr/far/frr/tar/trr are complements/aliases. W1: all 8 subsets "
     "of {fnr,fpr,thresholds} supplied as arrays or lists, nb_points in {None,1,2,3,10,11,100}, 12 score classes incl. ties, easy counts, 4 cfg. "
     "Non-trivial: >= 2 scored samples per class or points supplied; distinct = hash of inputs."
+    ' Build-phase additions: numpy-integer nb_points, documented defaults left out, two large sources (10 001-35 000 samples) per run.'
 )
 ASSUMPTIONS = ["both classes non-empty, finite scores", "rates at thresholds come from the object's own methods (decided by C01), thresholds from threshold setting (C02/C03)"]
 
